@@ -280,8 +280,13 @@ pub fn cases(ctx: &Ctx) -> Vec<Case> {
         (0..k).map(|pos| { let c = code % 15; code /= 15; pick15(c, pos) }).collect()
     };
     if thorough {
+        // complete on the implementation with the direct oracle; the model is evaluated on all 3-context
+        // requests and on every 8th 4-context request (the Coq side of the others is left empty)
         for cfg in &u.cfgs { for code in 0..total34 {
-            out.extend(mk_case("universe:3-4ctx", false, cfg, &Msg::Rq(std_rq(decode(code)))));
+            if let Some(mut c) = mk_case("universe:3-4ctx", false, cfg, &Msg::Rq(std_rq(decode(code)))) {
+                if code >= 15usize.pow(3) && code % 8 != 0 { c.coq = String::new(); c.desc = json!({"bucket": "universe:4ctx-oracle-only"}); }
+                out.push(c);
+            }
         } }
     } else {
         for _ in 0..budget34 {
